@@ -136,8 +136,8 @@ def explore(fn, oracle, init=None, max_states=4000, max_visits=2, stop_at=None):
                     elif pp == ["*"] and pl in st.refs:
                         val = st.env.get(st.refs[pl], UNKNOWN)
                 elif k == "agg" and r.get("ak") == "adt" and r.get("vidx") is not None:
-                    # enums are abstracted to their discriminant
-                    val = r["vidx"]
+                    # enums are abstracted to their discriminant (bits as compared by SwitchInt)
+                    val = r.get("dv", r["vidx"])
                 if val is UNKNOWN:
                     st.env.pop(dl, None)
                 else:
